@@ -359,6 +359,12 @@ fn form_src(form: &str, n: usize) -> Option<String> {
         ("juxt", 2) => "(a f)(b)".into(),
         ("rsec", 2) => "f(b)(a)".into(),
         ("opassign", 2) => "x := a; x f= b; x".into(),
+        // right-hand sides that mention the target itself (evaluated before the slot is nulled)
+        ("opself", 1) => "x := a; x f= x; x".into(),
+        ("opselfg", 1) => "x := a; x f= cl1(x); x".into(),
+        ("opidx", 1) => "x := [a, 0]; x[0] f= x[0]; x[0]".into(),
+        ("opthrow", 1) => "x := a; try x f= throw 1 catch _ -> 0; x".into(),
+        ("opseq", 2) => "x := a; x f= (x; b); x".into(),
         ("splatAll", _) => format!("f(...[{}])", args),
         ("splatTail", _) if n >= 1 => format!("f(a, ...[{}])", names[1..n].join(", ")),
         ("dot", 1) => "a.f".into(),
@@ -381,6 +387,7 @@ fn form_src(form: &str, n: usize) -> Option<String> {
 fn model_form(form: &str) -> &str {
     match form {
         "dotgt" | "then" => "dot",
+        "opidx" => "opself",
         f => f,
     }
 }
@@ -388,11 +395,11 @@ fn forms_for(n: usize) -> Vec<&'static str> {
     match n {
         1 => vec![
             "call", "bang", "sec0", "secall", "apply", "of", "splatAll", "splatTail", "dot", "dotgt", "then", "fwdDot",
-            "mix:H-S0", "mix:S0-H", "mix:U1", "lmix:H-S0", "lmix:U1",
+            "mix:H-S0", "mix:S0-H", "mix:U1", "lmix:H-S0", "lmix:U1", "opself", "opselfg", "opidx", "opthrow",
         ],
         2 => vec![
             "call", "bang", "infix", "backtick", "sec0", "sec1", "secall", "chainR", "chainL", "chainBoth", "apply", "of",
-            "juxt", "rsec", "opassign", "splatAll", "splatTail",
+            "juxt", "rsec", "opassign", "opseq", "splatAll", "splatTail",
             // `_` / `..._` combined with `...[…]` spreads in every relative order
             "mix:H-S1", "mix:S1-H", "mix:L1-H-S0", "mix:H-S0-L1", "mix:S0-H-L1", "mix:U1-L1", "mix:L1-U1", "mix:U2",
             "mix:H-U1", "mix:S0-H-H", "lmix:H-S1", "lmix:S1-H", "lmix:U1-L1", "lmix:H-S0-L1",
@@ -631,6 +638,10 @@ impl<'a> Binding<'a> {
         if id >= 100 {
             return self.args.get(id - 100).cloned().ok_or(Fail::Unresolvable);
         }
+        if id == 50 {
+            // the user-defined g of `x f= g(x)`
+            return self.ctx.top.borrow().vars.get("cl1").map(|(_, v)| v.borrow().clone()).ok_or(Fail::Unresolvable);
+        }
         self.leaves.get(id).map(|l| l.obj.clone()).ok_or(Fail::Unresolvable)
     }
     fn leaf_func(&self, id: usize) -> Result<(Func, Precedence), Fail> {
@@ -648,6 +659,7 @@ impl<'a> Binding<'a> {
     }
     fn val(&self, t: &Term) -> Result<Obj, Fail> {
         match t {
+            Term::Arg(999) => Ok(Obj::Null),
             Term::Arg(i) => self.args.get(*i).cloned().ok_or(Fail::Unresolvable),
             Term::List(ts) => Ok(Obj::list(ts.iter().map(|t| self.val(t)).collect::<Result<Vec<_>, _>>()?)),
             Term::Fun(f) => match &**f {
@@ -1290,6 +1302,9 @@ fn run_tuple(
         // Spec: the reference the property attaches to this form
         let spec = match spec_raw.as_str() {
             "ref:always" => reference.clone(),
+            "ref:selfPair" => class(&ctx.eval_with(&binds, "f(a, a)")),
+            "ref:selfApp" => class(&ctx.eval_with(&binds, "f(a, cl1(a))")),
+            "ref:argA" => class(&Out::Ok(args[0].obj.clone())),
             "ref:listLit" => class(&ctx.eval_with(&binds, &format!("[{}]", names[..n].join(", ")))),
             "ref:ifNotFunc" => {
                 if args[0].kind == "func" {
